@@ -81,6 +81,34 @@ type Recorder struct {
 	// Yield, when set, is called at every command of every (sub)shell: the
 	// scheduling perturbation of C32.
 	Yield func()
+	gmu   sync.Mutex
+	gates map[string]chan struct{}
+}
+
+// gate returns the named gate of this case (created on first use).
+func (rec *Recorder) gate(name string) chan struct{} {
+	rec.gmu.Lock()
+	defer rec.gmu.Unlock()
+	if rec.gates == nil {
+		rec.gates = map[string]chan struct{}{}
+	}
+	g, ok := rec.gates[name]
+	if !ok {
+		g = make(chan struct{})
+		rec.gates[name] = g
+	}
+	return g
+}
+
+func (rec *Recorder) openGate(name string) {
+	g := rec.gate(name)
+	rec.gmu.Lock()
+	defer rec.gmu.Unlock()
+	select {
+	case <-g:
+	default:
+		close(g)
+	}
 }
 
 func (rec *Recorder) call(ctx context.Context, args []string) ([]string, error) {
@@ -102,8 +130,20 @@ func (rec *Recorder) call(ctx context.Context, args []string) ([]string, error) 
 }
 
 // refuse every external command; `__drain` reads its stdin to EOF.
-func execHandler(next interp.ExecHandlerFunc) interp.ExecHandlerFunc {
+func (rec *Recorder) execHandler(next interp.ExecHandlerFunc) interp.ExecHandlerFunc {
 	return func(ctx context.Context, args []string) error {
+		// __gate_wait NAME / __gate_open NAME: order events between shells of one case without sleeps
+		if args[0] == "__gate_wait" && len(args) > 1 {
+			select {
+			case <-rec.gate(args[1]):
+			case <-ctx.Done():
+			}
+			return nil
+		}
+		if args[0] == "__gate_open" && len(args) > 1 {
+			rec.openGate(args[1])
+			return nil
+		}
 		if args[0] == "__spin" { // sleep a little: completion order perturbation
 			n := 0
 			if len(args) > 1 {
@@ -129,7 +169,7 @@ func NewRunner(scratch string, rec *Recorder, stdout io.Writer) (*interp.Runner,
 		interp.Env(expand.ListEnviron("HOME="+scratch, "PATH=/nonexistent")),
 		interp.Dir(scratch),
 		interp.StdIO(nil, stdout, io.Discard),
-		interp.ExecHandlers(execHandler),
+		interp.ExecHandlers(rec.execHandler),
 		interp.CallHandler(rec.call),
 	)
 }
@@ -227,9 +267,14 @@ func RunCase(scratch string, c Case, yield func()) Result {
 		res.Panic = msg
 	}
 	rec.mu.Lock()
-	res.Snaps = rec.Snaps
+	res.Snaps = make(map[string]Snap, len(rec.Snaps)) // a copy: a job that outlives the case may still record
+	for k, v := range rec.Snaps {
+		res.Snaps[k] = v
+	}
 	rec.mu.Unlock()
+	lim.mu.Lock() // a job that outlives the case may still be writing
 	res.Out = hx.Hex(out.String())
+	lim.mu.Unlock()
 	return res
 }
 
